@@ -98,6 +98,20 @@ package clusters
 //@   ensures [cancels_only_own] forall f ref :: {cancelled[f]} cancelled[f] && !old(cancelled[f]) ==> stop && old(smhas(MC, box(toLower(name)))) && f == old(delEntry.cancel)
 //@   ensures [cancel_monotone] forall f ref :: {cancelled[f]} old(cancelled[f]) ==> cancelled[f]
 
+//@ const mgrTyped = forall k ref :: {smhas(MC, k)} smhas(MC, k) ==> typeis(smget(MC, k), "*ClusterInfo") && unbox(smget(MC, k), "*ClusterInfo") != nil
+
+//@ func (*manager).Delete props C10, C15
+//@   requires [typed] mgrTyped
+//@   modifies smap(&m.clusters)[box(toLower(name))]
+//@   ensures [removed] !smhas(MC, box(toLower(name)))
+
+//@ func (*manager).DeleteWithStop props C10, C15
+//@   requires [typed] mgrTyped
+//@   modifies smap(&m.clusters)[box(toLower(name))], cancelled
+//@   ensures [removed] !smhas(MC, box(toLower(name)))
+//@   ensures [stopped] old(smhas(MC, box(toLower(name)))) && old(delEntry.cancel) != nil ==> cancelled[old(delEntry.cancel)]
+//@   ensures [cancel_monotone] forall f ref :: {cancelled[f]} old(cancelled[f]) ==> cancelled[f]
+
 //@ func (*ClusterInfo).Stop props C15, C16
 //@   requires [recv] c != nil
 //@   modifies cancelled
